@@ -4,8 +4,11 @@
 package main
 
 import (
+	"encoding/json"
 	"fmt"
 	"math/rand"
+	"os"
+	"path/filepath"
 	"strings"
 	"time"
 
@@ -151,6 +154,138 @@ func errName(err error) string {
 		return "ErrPeerlistFull"
 	}
 	return "other"
+}
+
+// ---- cache files (peers.json / legacy peers.txt)
+
+type fileEntry struct {
+	key, addr string
+	seenJSON  string // JSON value of LastSeen
+	seenCoq   string // option Z as the loader understands it
+	trusted   bool
+	incoming  bool
+	legacyKey bool // HasIncomePort instead of HasIncomingPort
+}
+
+var cacheCatalogue = []string{
+	"1.2.3.4:6000", "5.6.7.8:6001", "9.10.11.12:1024", "13.14.15.16:65535", "200.1.1.1:7000", "77.1.2.3:8000", "78.1.2.3:8000", "79.1.2.3:8000", "80.1.2.3:8000", "81.1.2.3:8000",
+	"127.0.0.1:6001", "127.0.0.1:6000", "127.255.0.9:7000", // loopback
+	"10.0.0.1:6000", "192.168.1.1:6000", "172.16.0.1:6000", // private (global unicast for net.IP)
+	"224.0.0.1:6000", "239.1.1.1:6000", "169.254.1.1:6000", "0.0.0.0:6000", "255.255.255.255:6000", // not unicast
+	"1.2.3.4:0", "1.2.3.4:80", "1.2.3.4:1023", "1.2.3.4:65536", "44.1.1.1:06000", // ports
+	"localhost:6000", "1.2.3.4", "", ":6000", "[::1]:6000", "::1:6000", "01.2.3.4:6000", "1.2.3.256:6000", "example.com:6000", "1.2.3.4:6000:1",
+	" 45.1.1.1:6000", "46.1.1.1:6000\n", "47.1. 1.1:60 00", // whitespace in the key
+}
+
+// genCacheFile builds the members of a cache file. Two different keys never clean
+// to the same address (which one survives would depend on map iteration order);
+// an exactly repeated key is allowed (the JSON decoder keeps the last one).
+func genCacheFile(r *Rng, now int64, n int, mix bool) []fileEntry {
+	var es []fileEntry
+	cleaned := map[string]string{} // cleaned key -> raw key
+	for len(es) < n {
+		key := cacheCatalogue[r.Intn(len(cacheCatalogue))]
+		if r.Chance(55) {
+			key = cacheCatalogue[r.Intn(10)]
+		}
+		if mix { // always a loopback, a public and a private address among the first members
+			switch len(es) {
+			case 0:
+				key = cacheCatalogue[10+r.Intn(3)]
+			case 1:
+				key = cacheCatalogue[r.Intn(10)]
+			case 2:
+				key = cacheCatalogue[13+r.Intn(3)]
+			}
+		}
+		if c, err := pex.VerifC26ValidateAddress(key, true); err == nil {
+			if raw, ok := cleaned[c]; ok && raw != key {
+				continue
+			}
+			cleaned[c] = key
+		}
+		e := fileEntry{key: key, addr: strings.Join(strings.Fields(key), ""), trusted: r.Chance(30), incoming: r.Chance(40), legacyKey: r.Chance(15)}
+		switch r.Intn(12) {
+		case 0:
+			e.addr = key // not cleaned: still validates to the same string
+		case 1:
+			e.addr = "1.2.3.5:6000" // does not match the key
+		case 2:
+			e.addr = ""
+		}
+		seen := now - []int64{0, 100, 3700, 90000, 200000, 700000, 5000000}[r.Intn(7)] - int64(r.Intn(50))
+		switch r.Intn(14) {
+		case 0:
+			e.seenJSON, e.seenCoq = "1.5", "None"
+		case 1:
+			e.seenJSON, e.seenCoq = "null", "None"
+		case 2:
+			e.seenJSON, e.seenCoq = "true", "None"
+		case 3:
+			e.seenJSON, e.seenCoq = `"yesterday"`, "None"
+		case 4:
+			e.seenJSON, e.seenCoq = `"`+time.Unix(seen, 0).UTC().Format(time.RFC3339Nano)+`"`, Some(zref(seen))
+		case 5:
+			e.seenJSON, e.seenCoq = "99999999999999999999", "None"
+		default:
+			e.seenJSON, e.seenCoq = fmt.Sprint(seen), Some(zref(seen))
+		}
+		es = append(es, e)
+		if r.Chance(8) { // the same member name again
+			d := e
+			d.trusted, d.incoming = !e.trusted, !e.incoming
+			if r.Chance(30) {
+				d.seenJSON, d.seenCoq = "null", "None"
+			}
+			es = append(es, d)
+		}
+	}
+	return es
+}
+
+func jstr(s string) string {
+	b, err := json.Marshal(s)
+	if err != nil {
+		panic(err)
+	}
+	return string(b)
+}
+
+func cacheJSON(es []fileEntry) string {
+	var parts []string
+	for _, e := range es {
+		inc := "HasIncomingPort"
+		if e.legacyKey {
+			inc = "HasIncomePort"
+		}
+		parts = append(parts, fmt.Sprintf("%s: {\"Addr\": %s, \"LastSeen\": %s, \"Private\": false, \"Trusted\": %v, \"%s\": %v}",
+			jstr(e.key), jstr(e.addr), e.seenJSON, e.trusted, inc, e.incoming))
+	}
+	return "{\n" + strings.Join(parts, ",\n") + "\n}\n"
+}
+
+func entriesCoq(es []fileEntry) string {
+	it := make([]string, len(es))
+	for i, e := range es {
+		it[i] = in.Ref("f_", "fentry", fmt.Sprintf("mkF %s %s %s %s %s", strCoq(e.key), strCoq(e.addr), e.seenCoq, B(e.trusted), B(e.incoming)))
+	}
+	return in.Ref("F_", "list fentry", List(it))
+}
+
+func keysCoq(d []pex.Peer) string {
+	it := make([]string, len(d))
+	for i, p := range d {
+		it[i] = strCoq(p.Addr)
+	}
+	return in.Ref("K_", "list str", List(it))
+}
+
+func strsCoq(l []string) string {
+	it := make([]string, len(l))
+	for i, a := range l {
+		it[i] = strCoq(a)
+	}
+	return in.Ref("A_", "list str", List(it))
 }
 
 // a scripted operation: k selects the branch of the operation switch
@@ -324,23 +459,97 @@ func run(args []string) error {
 	pool := []string{"1.2.3.4:6000", "5.6.7.8:6001", "9.10.11.12:1024", "13.14.15.16:65535", "200.1.1.1:7000", "127.0.0.1:6000",
 		" 1.2.3.4:6000", "5.6.7.8:6001\n", "1.2.3.4:06000", "77.1.2.3:8000", "78.1.2.3:8000", "79.1.2.3:8000",
 		"1.2.3.4:80", "256.1.1.1:6000", "224.0.0.1:6000", "localhost:6000", "1.2.3.4", ""}
-	var ops []string
+	var ops, starts []string
 	seqDone := 0
-	for attempts := 0; seqDone < nseq && attempts < nseq*3; attempts++ {
+	nStart := 60 // start-only cases: pex.New on a cache file under every configuration
+	if f.Tier == "thorough" || f.Tier == "search" {
+		nStart = 1200
+	}
+	for attempts := 0; seqDone < nseq+nStart && attempts < (nseq+nStart)*3; attempts++ {
 		max := []int{0, 1, 3, 3, 5}[r.Intn(5)]
 		allow := r.Chance(30)
+		startOnly := seqDone >= nseq
+		if startOnly {
+			i := seqDone - nseq
+			allow = i%2 == 1
+			max = []int{0, 1, 3, 5}[(i/2)%4]
+		}
 		// half of the sequences start with a scripted scenario around one threshold
 		// constant of pex.go / peerlist.go (MaxPeerRetryTimes, the one-day eviction
 		// age, Config.Max, the clearOld expiration), then continue randomly
 		var script []fop
 		scenario := "random"
-		if attempts < 8 || r.Chance(55) {
+		if !startOnly && (attempts < 8 || r.Chance(55)) {
 			script, max, scenario = makeScenario(r, pool, max, attempts)
 		}
+		if startOnly {
+			scenario = "start-only"
+		}
 		hist.Add("seq:scenario=" + scenario)
-		px := pex.VerifC26New(max, allow)
+		// every sequence starts a real Pex (pex.New) on its own data directory; most
+		// of the unscripted ones find a cache file there
+		dir, derr := os.MkdirTemp("", "c26pex")
+		if derr != nil {
+			return derr
+		}
+		cfg := pex.NewConfig()
+		cfg.DataDirectory = dir
+		cfg.Max = max
+		cfg.AllowLocalhost = allow
+		cfg.DownloadPeerList = false
+		cfg.DisableTrustedPeers = r.Chance(25)
+		var entries []fileEntry
+		fileKind := "none"
+		if startOnly || (scenario == "random" && r.Chance(75)) {
+			n := r.Intn(9)
+			if max > 0 && r.Chance(40) {
+				n = max + r.Intn(4) // around and beyond Max
+			}
+			if startOnly {
+				n = 3 + r.Intn(8)
+			}
+			entries = genCacheFile(r, time.Now().Unix(), n, startOnly || r.Chance(40))
+			text := cacheJSON(entries)
+			switch r.Intn(6) {
+			case 0: // only the legacy file
+				fileKind = "peers.txt"
+				derr = os.WriteFile(filepath.Join(dir, "peers.txt"), []byte(text), 0600)
+			case 1: // empty peers.json: falls back to the legacy file
+				fileKind = "empty-json+peers.txt"
+				if derr = os.WriteFile(filepath.Join(dir, "peers.json"), nil, 0600); derr == nil {
+					derr = os.WriteFile(filepath.Join(dir, "peers.txt"), []byte(text), 0600)
+				}
+			default:
+				fileKind = "peers.json"
+				derr = os.WriteFile(filepath.Join(dir, "peers.json"), []byte(text), 0600)
+			}
+			if derr != nil {
+				return derr
+			}
+		}
+		if max == 0 && r.Chance(35) { // default (trusted) connections; never with a bound, so New cannot hit a full list
+			cfg.DefaultConnections = []string{pool[3], pool[r.Intn(5)]}[:1+r.Intn(2)]
+		}
+		tStart := time.Now().Unix()
+		px, nerr := pex.New(cfg)
+		if nerr != nil || time.Now().Unix() != tStart {
+			hist.Add(fmt.Sprintf("seq:start-discarded:err=%v", nerr != nil))
+			os.RemoveAll(dir)
+			continue
+		}
+		init := px.VerifC26Dump()
+		startDesc := fmt.Sprintf("pex.New(Max=%d AllowLocalhost=%v DisableTrustedPeers=%v DefaultConnections=%q) on %s %s", max, allow, cfg.DisableTrustedPeers, cfg.DefaultConnections, fileKind, strings.TrimSpace(strings.ReplaceAll(cacheJSON(entries), "\n", " ")))
+		starts = append(starts, Tuple(fmt.Sprint(max), B(allow), B(cfg.DisableTrustedPeers), entriesCoq(entries), keysCoq(init), strsCoq(cfg.DefaultConnections), zref(tStart), dumpCoq(init)))
+		var initAddrs []string
+		for _, p := range init {
+			initAddrs = append(initAddrs, p.Addr)
+		}
+		caseJSON["start"] = append(caseJSON["start"], map[string]interface{}{"start": startDesc, "loaded": strings.Join(initAddrs, " ")})
+		hist.Add(fmt.Sprintf("start:file=%s:entries=%d:loaded=%d:max=%d", fileKind, len(entries), len(init), max))
+		o.Count("start|"+startDesc, true)
 		var steps []string
 		var trace []string
+		trace = append(trace, startDesc+" -> ["+strings.Join(initAddrs, " ")+"]")
 		straddle := false
 		pick := func() string {
 			if r.Chance(75) {
@@ -356,11 +565,15 @@ func run(args []string) error {
 			return d[r.Intn(len(d))].Addr
 		}
 		nops := len(script) + 4 + r.Intn(20)
+		if startOnly {
+			nops = 0
+		}
 		basePick, baseExisting := pick, existing
 		for j := 0; j < nops && !straddle; j++ {
 			pre := px.VerifC26Dump()
 			t0 := time.Now().Unix()
 			var opS, outS, kind string
+			isX := false
 			k := r.Intn(25)
 			var forced *fop
 			pick, existing = basePick, baseExisting
@@ -516,6 +729,22 @@ func run(args []string) error {
 				px.VerifC26SetAllUntrusted()
 				opS, outS, kind = "SetAllUntrusted", "ONone", "setAllUntrusted()"
 				hist.Add("op:setAllUntrusted")
+			case k == 24 && forced == nil: // save(), then a new Pex on the same data directory
+				if len(cfg.DefaultConnections) > 0 && max != 0 {
+					continue
+				}
+				if err := px.VerifC26Save(); err != nil {
+					return err
+				}
+				px2, err := pex.New(cfg)
+				if err != nil {
+					return fmt.Errorf("c26: pex.New after save failed: %v", err)
+				}
+				px = px2
+				opS = fmt.Sprintf("Restart %s %s %s %s", keysCoq(px.VerifC26Dump()), strsCoq(cfg.DefaultConnections), B(cfg.DisableTrustedPeers), zref(t0))
+				outS, kind = "ONone", "save();restart"
+				isX = true
+				hist.Add("op:save+restart")
 			default: // time passes for one peer
 				a := existing()
 				ages := []int64{100, 3700, 50000, 86000, 86400 + 50, 100000, 200000, 700000}
@@ -532,25 +761,35 @@ func run(args []string) error {
 				break
 			}
 			post := px.VerifC26Dump()
-			steps = append(steps, in.Ref("R_", "op * out * pl", Tuple(in.Ref("o_", "op", opS), outS, dumpCoq(post))))
+			xS := ""
+			if isX {
+				xS = in.Ref("x_", "xop", opS)
+			} else {
+				xS = in.Ref("x_", "xop", "Op "+in.Ref("o_", "op", opS))
+			}
+			steps = append(steps, in.Ref("R_", "xop * out * pl", Tuple(xS, outS, dumpCoq(post))))
 			trace = append(trace, kind)
 			o.Count(fmt.Sprintf("%v|%v|%d|%s", pre, allow, max, kind), true)
 		}
+		os.RemoveAll(dir)
 		if straddle {
 			hist.Add("seq:discarded-second-boundary")
+			starts = starts[:len(starts)-1]
+			caseJSON["start"] = caseJSON["start"][:len(caseJSON["start"])-1]
 			continue
 		}
 		seqDone++
-		ops = append(ops, Tuple(fmt.Sprint(max), B(allow), List(steps)))
+		ops = append(ops, Tuple(fmt.Sprint(max), B(allow), dumpCoq(init), List(steps)))
 		caseJSON["ops"] = append(caseJSON["ops"], map[string]interface{}{"max": max, "allow_localhost": allow, "ops": strings.Join(trace, "; ")})
 		if len(samples) < 8 && r.Intn(20) == 0 {
 			samples = append(samples, map[string]interface{}{"max": max, "allow_localhost": allow, "ops": strings.Join(trace, "; ")})
 		}
 		hist.Add(fmt.Sprintf("seq:max=%d", max))
 	}
-	o.Def("cases_ops", "Z * bool * list (op * out * pl)", ops)
+	o.Def("cases_start", "Z * bool * bool * list fentry * list str * list str * Z * pl", starts)
+	o.Def("cases_ops", "Z * bool * pl * list (xop * out * pl)", ops)
 
-	o.Side["rule"] = fmt.Sprintf("validateAddress on %d adversarial strings x allowLocalhost {false,true} (IPv6, leading zeros, unicode digits / spaces, several colons, port boundaries 0/1023/1024/65535/65536, signs, hex, localhost, octet and classification boundaries, NUL / invalid UTF-8) + %d generated strings (structured from boundary pools, classification boundaries, whitespace injection, one-byte mutations, random bytes); %d peer-list operation sequences (Max in {0,1,3,5}, time passing via LastSeen, rand.Shuffle replayed through rand.Seed), peer list dumped after every operation; about half start with a scripted scenario around a threshold constant - 9..12 IncreaseRetryTimes (MaxPeerRetryTimes 10 -1/0/+1/+2) on a trusted and an untrusted peer, both aged to expiration -10/+10/+1000 s, then clearOld (the first 8 sequences walk this systematically); a full list aged around the one-day eviction age 86400 -10/+10/+-1000 s with some peers trusted, then AddPeer; a list filled to Max-2..Max then AddPeers; peers aged around each clearOld period - and then continue randomly. Non-trivial = validateAddress reached a check beyond the syntactic ones, or any list operation; distinct by input / (list, operation)", len(adversarial), nval, seqDone)
+	o.Side["rule"] = fmt.Sprintf("validateAddress on %d adversarial strings x allowLocalhost {false,true} (IPv6, leading zeros, unicode digits / spaces, several colons, port boundaries 0/1023/1024/65535/65536, signs, hex, localhost, octet and classification boundaries, NUL / invalid UTF-8) + %d generated strings (structured from boundary pools, classification boundaries, whitespace injection, one-byte mutations, random bytes); %d peer-list operation sequences (Max in {0,1,3,5}, time passing via LastSeen, rand.Shuffle replayed through rand.Seed), peer list dumped after every operation; every sequence starts a real pex.New on its own data directory (plus start-only cases cycling AllowLocalhost x Max {0,1,3,5} on files that always hold a loopback, a public and a private address), 3 of 4 unscripted ones on a generated peers.json / legacy peers.txt / empty peers.json + peers.txt (0..8 or Max..Max+3 members from a catalogue of valid, loopback, private, multicast / unspecified / broadcast, port 0/80/1023/65536, malformed, IPv6 and whitespace-padded addresses; Addr equal / different / empty; LastSeen integer, RFC3339, float, null, bool, text, overflow, fresh to two months old; trusted / incoming flags, legacy HasIncomePort, repeated member names), with DisableTrustedPeers and (unbounded lists only) DefaultConnections, and save() + pex.New restarts happen in the middle of sequences; about half start with a scripted scenario around a threshold constant - 9..12 IncreaseRetryTimes (MaxPeerRetryTimes 10 -1/0/+1/+2) on a trusted and an untrusted peer, both aged to expiration -10/+10/+1000 s, then clearOld (the first 8 sequences walk this systematically); a full list aged around the one-day eviction age 86400 -10/+10/+-1000 s with some peers trusted, then AddPeer; a list filled to Max-2..Max then AddPeers; peers aged around each clearOld period - and then continue randomly. Non-trivial = validateAddress reached a check beyond the syntactic ones, or any list operation; distinct by input / (list, operation)", len(adversarial), nval, seqDone)
 	o.Side["distribution"] = hist.Sorted()
 	o.Side["samples"] = samples
 	o.Side["cases"] = caseJSON
